@@ -423,7 +423,7 @@ def main(tier, seed):
     try:
         translate()
         run.obligation("translate:steps.reweight.Reweighter", True)
-    except TranslateError as e:
+    except Exception as e:  # fail closed: anything the translator cannot digest
         run.obligation("translate:steps.reweight.Reweighter", False, str(e))
     run.prove("Props/C05.v", link_rels=["Link/Schedule.v"])
     try:
